@@ -38,9 +38,8 @@ WordSum(bs) ==
 \* floor(log2 n) for 1 <= n < 65536
 RECURSIVE Log2(_)
 Log2(n) == IF n <= 1 THEN 0 ELSE 1 + Log2(n \div 2)
-Pow2(k) == CASE k = 0 -> 1 [] k = 1 -> 2 [] k = 2 -> 4 [] k = 3 -> 8 [] k = 4 -> 16 [] k = 5 -> 32
-             [] k = 6 -> 64 [] k = 7 -> 128 [] k = 8 -> 256 [] k = 9 -> 512 [] k = 10 -> 1024
-             [] k = 11 -> 2048 [] k = 12 -> 4096 [] OTHER -> 8192
+\* (named WPow2: Sfnt.tla, which this module extends, has its own small Pow2)
+WPow2(k) == 2 ^ k
 
 HeadTag == <<26725, 24932>>               \* 'head'
 
@@ -51,7 +50,7 @@ DirectoryOK(p) ==
   /\ p.numTables = Len(p.records)
   /\ p.numTables >= 1
   /\ p.entrySelector = Log2(p.numTables)
-  /\ p.searchRange = 16 * Pow2(p.entrySelector)
+  /\ p.searchRange = 16 * WPow2(p.entrySelector)
   /\ p.rangeShift = 16 * p.numTables - p.searchRange
   /\ \A k \in 1 .. (Len(p.records) - 1) : Less32(p.records[k].tag, p.records[k + 1].tag)   \* sorted, unique
 
@@ -233,6 +232,106 @@ DerivedBadNames(x) == {x.derived[k].name : k \in DerivedBad(x)}
 CffBadIndexes(x) == IF x.has.cff THEN {x.cffw.indexes[k].name : k \in {j \in 1 .. Len(x.cffw.indexes) : ~CffIndexOK(x.cffw.indexes[j])}}
                     ELSE {}
 
+\* ---- the structure of a cmap table the library built -----------------------------------------
+\* x.cmapw: the raw structure an independent reader found: version, numTables, tableLen, the encoding records
+\* <<platformID, encodingID, offset>> in file order and, for every distinct subtable offset (ascending),
+\*   [off, format, ok, declLen, big,
+\*    hdr = <<segCountX2, searchRange, entrySelector, rangeShift, reservedPad>>, ends, starts, deltas, ros, gia   (format 4;
+\*          gia = the 16-bit words between the idRangeOffset array and the end the length field declares)
+\*    groups = Seq(<<startCharCode, endCharCode, startGlyphID>>), nGroups                      (format 12)
+\*    first, count, gia                                                                        (format 6; format 0: gia = 256 bytes)]
+\* Everything a reader of the table relies on is RECOMPUTED here from these numbers: the binary-search fields of
+\* format 4 from segCount, the order and disjointness of segments / groups, the address an idRangeOffset reaches
+\* (idRangeOffset[k] / 2 + (c - startCode[k]) words past &idRangeOffset[k], i.e. index
+\* idRangeOffset[k] / 2 - (segCount - k) + (c - startCode[k]) of the glyphIdArray), the glyph ids that come out
+\* (modulo 65536 with idDelta) against maxp.numGlyphs, the length fields against the formats' layouts, the order of
+\* the encoding records, and that header + records + subtables TILE the table (a writer that lays the subtables out
+\* back to back has a wrong length / offset field exactly when they do not).
+\* Judged for a cmap the operation serialised itself (x.built.cmap: subset, prince::subset); copied tables are the
+\* source's business.  `big` subtables (more entries than the harness hands over) are skipped.
+CmapLexLess(a, b) == a[1] < b[1] \/ (a[1] = b[1] /\ a[2] < b[2])
+F4SegOK(st, k, n) ==
+  LET segs == Len(st.ends)  s == st.starts[k]  e == st.ends[k]  d == st.deltas[k]  ro == st.ros[k] IN
+  IF ro = 0 THEN ((s + d) % 65536) + (e - s) < n
+  ELSE /\ ro % 2 = 0
+       /\ LET i0 == (ro \div 2) - (segs - (k - 1)) IN            \* 0-based index of startCode's entry
+          /\ i0 >= 0
+          /\ i0 + (e - s) < Len(st.gia)
+          /\ \A j \in (i0 + 1) .. (i0 + 1 + (e - s)) : st.gia[j] = 0 \/ (st.gia[j] + d) % 65536 < n
+\* the clauses of format 4, by name (for reporting; F4OK = none fails)
+F4OrderBad(st) ==                                                 \* pairs of neighbours that are not ascending and disjoint
+  {k \in 1 .. (Len(st.ends) - 1) : ~(st.ends[k] < st.starts[k + 1])}
+F4Bad(st, n) ==
+  LET segs == Len(st.ends) IN
+  IF segs < 1 \/ Len(st.hdr) # 5 THEN {"no-segments"}
+  ELSE
+    (IF /\ st.hdr[1] = 2 * segs
+        /\ st.hdr[3] = Log2(segs)                                 \* entrySelector = floor(log2 segCount)
+        /\ st.hdr[2] = 2 * WPow2(Log2(segs))                      \* searchRange = 2 * 2^entrySelector
+        /\ st.hdr[4] = 2 * segs - 2 * WPow2(Log2(segs))           \* rangeShift
+     THEN {} ELSE {"search-fields"})
+    \cup (IF st.hdr[5] = 0 THEN {} ELSE {"reservedPad"})
+    \cup (IF st.declLen = 16 + 8 * segs + 2 * Len(st.gia) THEN {} ELSE {"length"})
+    \* "the final start code and endCode values must be 0xFFFF"
+    \cup (IF st.ends[segs] = 65535 /\ st.starts[segs] = 65535 THEN {} ELSE {"no-final-0xFFFF-segment"})
+    \cup (IF \A k \in 1 .. segs : st.starts[k] <= st.ends[k] THEN {} ELSE {"start>end"})
+    \* segments ascending by endCode and disjoint; the one named case: the only offending pair is the final
+    \* 0xFFFF..0xFFFF segment following a segment that already ends at 0xFFFF
+    \cup (IF F4OrderBad(st) = {} THEN {}
+         ELSE IF F4OrderBad(st) = {segs - 1} /\ st.ends[segs - 1] = 65535 /\ st.starts[segs] = 65535
+              THEN {"final-segment-after-a-segment-ending-at-0xFFFF"}
+              ELSE {"segment-order"})
+    \cup (IF \A k \in 1 .. segs : F4SegOK(st, k, n) THEN {} ELSE {"glyph-addressing"})
+F4OK(st, n) == F4Bad(st, n) = {}
+F12OK(st, n) ==
+  /\ st.nGroups = Len(st.groups)
+  /\ st.declLen = 16 + 12 * Len(st.groups)
+  /\ \A k \in 1 .. Len(st.groups) :
+        LET g == st.groups[k] IN
+        /\ g[1] <= g[2]
+        /\ (k > 1 => st.groups[k - 1][2] < g[1])                 \* ascending, disjoint
+        /\ (st.format = 12 => g[3] + (g[2] - g[1]) < n)
+        /\ (st.format = 13 => g[3] < n)
+CmapSubtableOK(st, tableLen, n) ==
+  /\ st.ok
+  /\ st.declLen >= 0 /\ st.off + st.declLen <= tableLen
+  /\ IF st.big THEN TRUE
+     ELSE CASE st.format = 0  -> st.declLen = 262 /\ \A j \in 1 .. Len(st.gia) : st.gia[j] < n
+            [] st.format = 4  -> F4OK(st, n)
+            [] st.format = 6  -> /\ st.declLen = 10 + 2 * st.count /\ st.first + st.count <= 65536
+                                 /\ \A j \in 1 .. Len(st.gia) : st.gia[j] < n
+            [] st.format \in {12, 13} -> F12OK(st, n)
+            [] OTHER -> TRUE
+CmapBadSubtables(x) ==
+  {k \in 1 .. Len(x.cmapw.subtables) : ~CmapSubtableOK(x.cmapw.subtables[k], x.cmapw.tableLen, x.numGlyphs)}
+CmapHeaderOK(w) ==
+  /\ w.version = 0
+  /\ w.numTables >= 1 /\ Len(w.records) = w.numTables
+  /\ \A k \in 1 .. (Len(w.records) - 1) : CmapLexLess(w.records[k], w.records[k + 1])   \* by platformID, then encodingID
+  /\ \A k \in 1 .. Len(w.records) : \E j \in 1 .. Len(w.subtables) : w.subtables[j].off = w.records[k][3]
+CmapTilesOK(w) ==
+  LET n == Len(w.subtables) IN
+  /\ n >= 1
+  /\ w.subtables[1].off = 4 + 8 * w.numTables
+  /\ \A k \in 1 .. (n - 1) : w.subtables[k].off + w.subtables[k].declLen = w.subtables[k + 1].off
+  /\ w.subtables[n].off + w.subtables[n].declLen = w.tableLen
+CmapStructOK(x) ==
+  (x.has.cmap /\ x.has.maxp /\ x.built.cmap) =>
+    /\ x.cmapw.walked
+    /\ CmapHeaderOK(x.cmapw)
+    /\ CmapBadSubtables(x) = {}
+    /\ CmapTilesOK(x.cmapw)
+\* for reporting: which part fails
+CmapBadNames(x) ==
+  IF ~(x.has.cmap /\ x.has.maxp /\ x.built.cmap) THEN {}
+  ELSE IF ~x.cmapw.walked THEN {"walk"}
+  ELSE (IF CmapHeaderOK(x.cmapw) THEN {} ELSE {"header"})
+       \cup UNION {LET st == x.cmapw.subtables[k] IN
+                    IF st.format = 4 /\ st.ok /\ ~st.big /\ st.declLen >= 0 /\ st.off + st.declLen <= x.cmapw.tableLen
+                    THEN {"format4:" \o nm : nm \in F4Bad(st, x.numGlyphs)}
+                    ELSE {"format" \o ToString(st.format)} : k \in CmapBadSubtables(x)}
+       \cup (IF CmapBadSubtables(x) = {} /\ ~CmapTilesOK(x.cmapw) THEN {"tiling"} ELSE {})
+
 \* ---- collection members: the table set belongs to the member that was asked for ---------
 \* A collection (WOFF2 `ttcf` flavour, OpenType TTC) holds several fonts; tables may be shared between members
 \* or private to one.  Every clause above judges a table set against ITS OWN maxp / hhea / head, so it holds
@@ -268,7 +367,7 @@ MemberBadNames(x) ==
   ELSE {}
 
 CrossTableOK(x) == /\ HmtxOK(x) /\ LocaOK(x) /\ GlyphsOK(x) /\ LsbOK(x) /\ CffOK(x) /\ CmapOK(x) /\ PostOK(x) /\ ReloadOK(x)
-                   /\ DerivedOK(x) /\ VmtxOK(x) /\ CffStructOK(x) /\ MemberOK(x)
+                   /\ DerivedOK(x) /\ VmtxOK(x) /\ CffStructOK(x) /\ MemberOK(x) /\ CmapStructOK(x)
 CrossViolated(x) ==
   (IF HmtxOK(x) THEN {} ELSE {"HmtxOK"}) \cup (IF LocaOK(x) THEN {} ELSE {"LocaOK"})
   \cup (IF CffOK(x) THEN {} ELSE {"CffOK"}) \cup (IF CmapOK(x) THEN {} ELSE {"CmapOK"})
@@ -276,6 +375,7 @@ CrossViolated(x) ==
   \cup (IF GlyphsOK(x) THEN {} ELSE {"GlyphsOK"}) \cup (IF LsbOK(x) THEN {} ELSE {"LsbOK"})
   \cup (IF DerivedOK(x) THEN {} ELSE {"DerivedOK"}) \cup (IF VmtxOK(x) THEN {} ELSE {"VmtxOK"})
   \cup (IF CffStructOK(x) THEN {} ELSE {"CffStructOK"}) \cup (IF MemberOK(x) THEN {} ELSE {"MemberOK"})
+  \cup (IF CmapStructOK(x) THEN {} ELSE {"CmapStructOK"})
 
 ---------------------------------------------------------------------------
 \* MODEL of FontBuilder: tables keyed by tag (a later add of the same tag replaces the earlier
@@ -291,7 +391,7 @@ RECURSIVE Offsets(_, _)
 Offsets(tbl, p) == IF tbl = <<>> THEN <<>> ELSE <<p>> \o Offsets(Tail(tbl), p + Len(Padded(tbl[1].body)))
 
 BuilderHeader(flavor, tbl) ==
-  LET n == Len(tbl)  es == Log2(n)  sr == 16 * Pow2(es) IN
+  LET n == Len(tbl)  es == Log2(n)  sr == 16 * WPow2(es) IN
   flavor \o U16(n) \o U16(sr) \o U16(es) \o U16(16 * n - sr)
 
 RECURSIVE BuilderDir(_, _)
